@@ -145,6 +145,11 @@ def check(ctx, run):
                             nv = ns[d[0][2]]
                             inner = deref_all(v[2][0])
                             how = canon(inner[1]).split('::')[-1] if inner[0] == 'call' else ('from_f64' if any(is_call(s, 'Number::from_f64') for s in subterms(inner)) else show(inner)[:30])
+                            if how == 'from' and inner[0] == 'call':
+                                import re as _re
+                                m_ = _re.search(r'From<(\w+)>', inner[1])
+                                if m_:
+                                    how = f'from<{m_.group(1)}>'
                             nums.setdefault(nv, set()).add(('Ok', how))
                 else:
                     res = 'nested' if any(is_call(s, 'functions::containter_to_serde_json') for s in subterms(v)) else show(v)[:30]
@@ -162,7 +167,7 @@ def check(ctx, run):
         for k, v in exp.items():
             ok = table.get(k) == v
             (run.proved if ok else run.violation)('R19.2', b.path, f'tag[{k}]', f'-> {sorted(v)[0]}' if ok else f'expected {sorted(v)}, found {sorted(table.get(k, []))}', loc)
-        expn = {'Int64': {('Ok', 'from')}, 'UInt64': {('Ok', 'from')}, 'Float64': {('Ok', 'from_f64'), ('Err', 'non-finite')}}
+        expn = {'Int64': {('Ok', 'from<i64>')}, 'UInt64': {('Ok', 'from<u64>')}, 'Float64': {('Ok', 'from_f64'), ('Err', 'non-finite')}}
         for nv, want in expn.items():
             got = nums.get(nv, set())
             ok = got == want
@@ -171,7 +176,7 @@ def check(ctx, run):
                                                                                       if any(True for _ in [0])) and ('Err', 'non-finite') not in got:
                 run.undecided(rule, b.path, f'number[{nv}]', 'finite floats go through from_f64 and no unwrap/expect is applied, but the path taken by a non-finite float was not recognised', loc)
                 continue
-            (run.proved if ok else run.violation)(rule, b.path, f'number[{nv}]', 'exact integer' if ok and nv != 'Float64' else ('finite floats via from_f64, non-finite -> Err (no panic)' if ok else
+            (run.proved if ok else run.violation)(rule, b.path, f'number[{nv}]', 'exact integer of the same signedness' if ok and nv != 'Float64' else ('finite floats via from_f64, non-finite -> Err (no panic)' if ok else
                                                    f'{nv} outcomes are {sorted(got)}, expected {sorted(want)}'), loc)
     # ---- containers
     for fn, want_none in (('functions::containter_to_serde_json', None), ('functions::containter_to_serde_json_object', True)):
